@@ -364,6 +364,7 @@ func runC14(c *RunCtx) {
 	}
 	ctxRacePrograms(c, 64, 400)
 	cyclesPrograms(c, 32, 160)
+	ctxInflightPrograms(c, 16, 80)
 	// full workloads on a worker configured with a context, scripts made of Stop/Restart/Pause/Resume:
 	// the listener of every earlier run is still around when the next run starts
 	richPrograms(c, "rich-ctx", 48, 240, richBias{MaxJobs: 6, Cancel: 10, Script: 6, Expiry: 30, RestartHeavy: true, Ctx: 100},
@@ -392,9 +393,9 @@ func runC14(c *RunCtx) {
 // schedule dependent, so the reference machine is not applied; what every interleaving must
 // preserve is checked at quiescence: a worker that reports Running processes a probe job, a
 // paused one does after Resume, a stopped one after Restart, and nothing leaks after the final Stop.
-func epConcLife(c *RunCtx, withCtx bool, scripts [][]string) *Result {
+func epConcLife(c *RunCtx, withCtx, fresh bool, scripts [][]string) *Result {
 	e := NewEnv(c.Prop)
-	desc := fmt.Sprintf("concurrent-lifecycle ctx=%v scripts=%v", withCtx, scripts)
+	desc := fmt.Sprintf("concurrent-lifecycle ctx=%v fresh=%v scripts=%v", withCtx, fresh, scripts)
 	out := RunBubble(c.T, func(bid string) {
 		var ranMu sync.Mutex
 		ran := map[int]int{}
@@ -410,15 +411,26 @@ func epConcLife(c *RunCtx, withCtx bool, scripts [][]string) *Result {
 			ran[j.Data()]++
 			ranMu.Unlock()
 		}, wcfg...)
-		q := w.BindQueue()
+		// fresh: nothing is bound before the concurrent calls, the binds are part of them
+		var q varmq.Queue[int]
+		if !fresh {
+			q = w.BindQueue()
+		}
 		k := NewKit(e, 0)
 		var wg sync.WaitGroup
 		for gi, sc := range scripts {
 			wg.Add(1)
 			go func() {
 				defer wg.Done()
+				mine := q
 				for i, op := range sc {
 					switch op {
+					case "Bind":
+						if (gi+i)%2 == 0 {
+							mine = w.BindQueue()
+						} else {
+							w.BindPriorityQueue()
+						}
 					case "Pause":
 						w.Pause()
 					case "Resume":
@@ -430,7 +442,9 @@ func epConcLife(c *RunCtx, withCtx bool, scripts [][]string) *Result {
 					case "PauseAndWait":
 						w.PauseAndWait()
 					case "Add":
-						q.Add(gi*100 + i)
+						if mine != nil {
+							mine.Add(gi*100 + i)
+						}
 					case "Tune":
 						w.TunePool(1 + (gi+i)%4)
 					}
@@ -444,6 +458,10 @@ func epConcLife(c *RunCtx, withCtx bool, scripts [][]string) *Result {
 		}
 		time.Sleep(50 * time.Microsecond)
 		synctest.Wait()
+		if q == nil {
+			q = w.BindQueue() // starts the worker if it is still Initiated
+			synctest.Wait()
+		}
 		st := w.Status()
 		switch st {
 		case "Paused":
@@ -499,7 +517,29 @@ func concLifePrograms(c *RunCtx, nq, nt int) {
 				scripts = append(scripts, sc)
 			}
 			withCtx := r.Bool()
-			p.Explore(func(pl Plan) *Result { return epConcLife(c, withCtx, scripts) },
+			fresh := v%3 == 2
+			if fresh {
+				// binds race each other on a worker that was never started; one of the binders goes on to pause or
+				// stop the worker at once, while the others may still be on their way into their first bind.
+				// Short scripts: a later Restart would paper over whatever the race left behind.
+				n := len(scripts)
+				scripts = nil
+				for g := 0; g < n-1; g++ {
+					sc := []string{"Bind"}
+					if r.Chance(40) {
+						sc = append(sc, Pick(r, "Add", "Bind", "Tune", "Pause", "Resume"))
+					}
+					scripts = append(scripts, sc)
+				}
+				scripts = append(scripts, []string{"Bind", Pick(r, "Stop", "Pause", "Stop", "PauseAndWait")})
+			}
+			if fresh {
+				// few sites, all of them explored: the binders' way into their first start
+				p.Explore(func(pl Plan) *Result { return epConcLife(c, withCtx, fresh, scripts) },
+					ExploreOpts{Base: 4, Noise: c.Q(10, 40), K: 3, Funcs: []string{"start", "BindQueue", "bindQueue"}, Pairs: c.Q(10, 60), MaxCases: c.Q(150, 1000)})
+				return
+			}
+			p.Explore(func(pl Plan) *Result { return epConcLife(c, withCtx, fresh, scripts) },
 				ExploreOpts{Base: 4, K: c.Q(3, 6), Funcs: []string{"Restart", "Resume", "start", "Stop", "Pause", "closeChannels", "goEventLoop", "goListenToContext", "stopTickers", "stopAndRemoveAllWorkers"}, Pairs: c.Q(20, 100), MaxCases: c.Q(150, 2000)})
 		})
 	}
